@@ -2,9 +2,11 @@
 CLAIMS = {
     'C28': dict(engine='pyvc (E1) + rtc (E3)', category='proof',
                 technique='contract-based deductive verification: AST->VC->z3 with representation invariant, ghost witness field and frame conditions; run-time contracts as bounded stand-in',
-                text='Every public occupancy mutator under contract is proved, for all supercell sizes / species counts / list contents, to preserve the '
-                     'representation invariant relating occ and chemorder and to accept exactly the declared species; hence every edit history does. '
-                     'POSCAR text round trip is only checked at run time over bounded histories (labelled B).',
+                text='setocc, __imul__, reorder and __sane__ are proved, for all supercell sizes / species counts / list contents, to preserve the '
+                     'representation invariant relating occ and chemorder, to accept exactly the declared species, and (reorder) to raise ValueError exactly '
+                     'when a map is not a permutation (pigeonhole lemmas proved by induction); hence every history of these edits preserves the invariant. '
+                     'fillperiodic, __setitem__, __mul__, copy, POSCAR and POSCAR_occ (incl. the POSCAR text round trip) are outside the encoder subset and only '
+                     'checked at run time over bounded histories (labelled B, not counted as proved).',
                 note='Assumes the encoder model of CPython list/array primitives, mathematical integers, no aliasing between inner lists; z3/cvc5 trusted. '
                      'Functions outside the encoder subset are reported undecided, never passed.'),
 }
@@ -94,7 +96,7 @@ CLAIMS['C34'] = dict(engine='rtc (E3)', category='exploration',
 
 CLAIMS['C02'] = dict(engine='rtc (E3)', category='exploration',
     technique='run-time postcondition of Interstitial.diffusivity against the full-site-basis CTMC spec function (numpy pinv), and agreement with the Green-function calculator; bounded stand-in',
-    text='Bounded: on every catalogue crystal (solve and pinv branches, vector bases of dimension 0-6, 2D and 3D, rotated settings) with seeded data the interstitial diffusivity equals the exact long-time diffusivity to 1e-9 and GFCrystalcalc.D agrees to 1e-8.',
+    text='Bounded: on every catalogue crystal (solve and pinv branches, vector bases of dimension 0-6, 2D and 3D, rotated settings) with seeded data the interstitial diffusivity equals the exact long-time diffusivity to 1e-9 and GFCrystalcalc.D agrees to 1e-8. Known finding (thorough tier): GFCrystalcalc.SetRates refuses diffusivities more anisotropic than about 1e6.',
     note='CTMC formula trusted as definition; catalogue and seeded data are the bound.')
 CLAIMS['C03'] = dict(engine='rtc (E3)', category='exploration',
     technique='self-certifying run-time postconditions (symmetry, point-group invariance, positive semidefiniteness) on both calculators; bounded stand-in with known findings',
